@@ -314,6 +314,8 @@ def build(tier):
     # "prediction is bias plus the SUM of the weak learners' predictions": every weak learner ADDS its tables to the outputs
     # row (never overwrites): the do_predict contracts of specs/C10 are run here as well, by reference (same spec objects)
     targets += c10_predict_targets()
+    import linear_spec
+    targets += linear_spec.targets()
     return {
         'targets': targets, 'vcs': [],
         'decided': ['early-stopping monitor transition = specification, for every observation and prior state; constructor (round 0, value +max, given snapshot) and round() / value() / values() accessors',
@@ -370,7 +372,7 @@ def replay(rp):
     from astload import REPO
     out = {'reproduced': False, 'runs': []}
     tgt = rp.get('target', '')
-    if 'early_stopping' not in tgt:
+    if 'early_stopping' not in tgt and 'monitor_history' not in tgt:
         out['note'] = f'no native replay for target {tgt}: protocol-level counterexample (ghost identities / counters)'
         return out
     srcs = [os.path.join(REPO, 'src/gboost/early_stopping.cpp'), os.path.join(REPO, 'src/gboost/util.cpp')]
